@@ -53,7 +53,7 @@ def cases(tier, seed):
         for n in range(3):      # one case per normal: the 4-level plotfiles are the long poles
             cs.append({"gen": g, "sel_seed": seed * 47 + i * 3 + n, "per_class": 2 if tier == "quick" else 3,
                        "normals": [n], "fmt": dict(ref_ratio_extra=rng.choice([0, 0, 1, 3]), trailing_blank=rng.random() < 0.7, close_blank=rng.random() < 0.3, floatfmt=rng.choice(["repr", "17g"]))})
-    return cs
+    return workload.add_reach_store(cs)
 
 
 def setup():
